@@ -35,6 +35,10 @@ func c06Check(ps *protoServer, tn string, eio string, sessionNo int, interval, t
 	if eio != "" {
 		ctx.Query().Set("EIO", eio)
 	}
+	b64 := verif.Bool()
+	if b64 {
+		ctx.Query().Set("b64", "1")
+	}
 	before := len(ps.made)
 	nconn := rec.count("connection")
 	cm, tr := ps.Handshake(tn, ctx)
@@ -56,6 +60,7 @@ func c06Check(ps *protoServer, tn string, eio string, sessionNo int, interval, t
 		wantProto = 4
 	}
 	verif.Assert(sock.Protocol() == wantProto && ft.Protocol() == wantProto, "revision from the EIO parameter")
+	verif.Assert(ft.SupportsBinary() == !b64, "the b64 flag (on every revision and transport) selects the base64 form of binary packets")
 	ft.complete() // the client reads the first batch and is ready for the next
 	pk := ft.flat()
 	verif.Assert(len(pk) >= 1 && pk[0].Type == packet.OPEN, "first packet is the open packet")
